@@ -12,7 +12,9 @@ ID = "C13"
 LEVEL = "exploration"
 RULE = (
     "Hypothesis: foreground colour x alpha (0, 1, adjacent floats, uniform, short decimals) x opaque background in any "
-    "spelling, text spelt as rgba(), hsla(), RGBA tuple and RGBA list; plus translucent backgrounds (composited over white). "
+    "spelling, text spelt as rgba(), hsla(), RGBA tuple and RGBA list (and, labelled css4-alias, the CSS Color 4 aliases rgb(r, g, b, a) / "
+    "rgb(r g b / a) that the library accepts); plus translucent backgrounds (composited over white); one case in three repeats the "
+    "SAME text literal over a second background and then over the first again. "
     "Oracle: exact rational source-over blend of what O-CSS reads; |channel - exact| <= 1.5, alpha 1 -> the colour itself, "
     "alpha 0 -> the background; is_readable equals the O-WCAG label of (text.rgb, bg.rgb); make_readable equals the result "
     "for the opaque composite pair with the same settings. Non-trivial: 0 < alpha < 1, background != white and "
@@ -36,6 +38,16 @@ def _exact_fg(t):
 
 
 def judge(case):
+    info = _judge_one(case)
+    # the same text literal over ANOTHER background, then over the first again: each pair composites over its OWN background
+    if case.get("bg2") is not None:
+        _judge_one(dict(case, bg=case["bg2"], fix=False))
+        _judge_one(dict(case, fix=False))
+        info["cls"].append("second-background")
+    return info
+
+
+def _judge_one(case):
     from cm_colors import ColorPair
 
     t, b = gc.dec(case["text"]), gc.dec(case["bg"])
@@ -104,13 +116,16 @@ def judge(case):
 def strategy(draw):
     fg = draw(gc.rgb())
     bg = draw(st.one_of(gc.rgb(), gc.rgb(), st.sampled_from([(255, 255, 255), (0, 0, 0)])))
-    targ, tkind, _fg, _a = draw(gc.translucent(fg))
+    targ, tkind, _fg, _a = draw(gc.translucent(fg, css4=True))
     if draw(st.integers(0, 9)) == 0:
         barg, bkind, _, _ = draw(gc.translucent(bg))
         bkind = "translucent:" + bkind
     else:
         barg, bkind, _ = draw(gc.spell(bg, allow_translucent=False))
     case = {"text": targ, "bg": barg, "tkind": tkind, "bkind": bkind, "large": draw(st.booleans())}
+    if draw(st.integers(0, 2)) == 0:
+        bg2 = draw(st.one_of(gc.rgb(), st.sampled_from([(255, 255, 255), (0, 0, 0)])))
+        case["bg2"] = draw(gc.spell(bg2, allow_translucent=False))[0]
     if draw(st.integers(0, 11)) == 0:
         case["fix"] = True
         case["mode"] = draw(st.sampled_from([0, 1, 2]))
@@ -120,4 +135,4 @@ def strategy(draw):
 
 def subchecks(tier):
     q = tier == "quick"
-    return [Hyp("composite-and-judge", strategy, judge, examples=24000 if q else 600000)]
+    return [Hyp("composite-and-judge", strategy, judge, examples=16000 if q else 600000)]
